@@ -8,7 +8,7 @@
    - [scase]/[pcase]: the model's emitted <source>/<primitive> against the written element. *)
 From Coq Require Import List Bool ZArith NArith.
 From PC Require Import Base.Atoms Base.Xml Model.SchemaSyntax Model.Schema Gen.Schema141
-                       Model.Bookkeeping Model.EmitGrammar.
+                       Model.Bookkeeping Model.EmitGrammar Model.EmitDoc.
 Import ListNotations.
 
 Fixpoint mism {A} (ok : A -> bool) (i : nat) (cs : list A) : list nat :=
@@ -48,3 +48,26 @@ Definition pcase := (atom * atom * primm * xml)%type.
 Definition pcase_ok (c : pcase) : bool :=
   let '(vid, vref, p, x) := c in xml_eqv (emit_prim (redirect_prim vid vref p)) x.
 Definition pmismatches := mism pcase_ok 0.
+
+(* ---- the whole-writer model against the written document (from-scratch recipes): the user
+   content encoded from the recipe must be well formed and its emission must be the written tree *)
+Definition mcase := (list (atom * N) * xml * doc)%type.
+Definition mcase_obs (c : mcase) : list bool :=
+  let '(lex, written, d) := c in [wf_user (lex_of lex) d; xml_eqv (emit d) written].
+Definition mcase_ok (c : mcase) : bool := forallb (fun b => b) (mcase_obs c).
+Definition mmismatches := mism mcase_ok 0.
+
+(* for diagnosis: tags on the way to the first difference *)
+Fixpoint diff_path (fuel : nat) (a b : xml) : list atom :=
+  match fuel with
+  | O => []
+  | S f =>
+      if xml_eqv a b then [] else
+      xtag a :: (fix go (l1 l2 : list xml) : list atom :=
+                   match l1, l2 with
+                   | x :: r1, y :: r2 => if xml_eqv x y then go r1 r2 else diff_path f x y
+                   | x :: _, [] => [xtag x; 0%N]
+                   | [], y :: _ => [0%N; xtag y]
+                   | [], [] => [1%N]
+                   end) (xkids a) (xkids b)
+  end.
